@@ -752,6 +752,55 @@ pub fn epserde_derive(input: TokenStream) -> TokenStream {
                 .collect::<Vec<_>>();
             let tag = (0..variants.len()).collect::<Vec<_>>();
 
+            // If there are bounded type parameters which are fields of some
+            // variant, we need to impose the same bounds on the SerType and on
+            // the DeserType, as we do for structs.
+            derive_input.generics.params.iter().for_each(|param| {
+                if let GenericParam::Type(t) = param {
+                    let ty = &t.ident;
+
+                    if ! t.bounds.is_empty() &&
+                        types_with_generics.iter().any(|x| *ty == x.to_string()) {
+
+                        // Add a lifetime so we express bounds on DeserType
+                        let mut lifetimes = Punctuated::new();
+                        lifetimes.push(GenericParam::Lifetime(LifetimeParam {
+                            attrs: vec![],
+                            lifetime: syn::Lifetime::new("'epserde_desertype", proc_macro2::Span::call_site()),
+                            colon_token: None,
+                            bounds: Punctuated::new(),
+                        }));
+                        // Add the type bounds to the DeserType
+                        where_clause_des
+                            .predicates
+                            .push(WherePredicate::Type(PredicateType {
+                                lifetimes: Some(BoundLifetimes {
+                                    for_token: token::For::default(),
+                                    lt_token: token::Lt::default(),
+                                    lifetimes,
+                                    gt_token: token::Gt::default(),
+                                }),
+                                bounded_ty: syn::parse_quote!(
+                                    <#ty as epserde::deser::DeserializeInner>::DeserType<'epserde_desertype>
+                                ),
+                                colon_token: token::Colon::default(),
+                                bounds: t.bounds.clone(),
+                        }));
+                        // Add the type bounds to the SerType
+                        where_clause_ser
+                            .predicates
+                            .push(WherePredicate::Type(PredicateType {
+                                lifetimes: None,
+                                bounded_ty: syn::parse_quote!(
+                                    <#ty as epserde::ser::SerializeInner>::SerType
+                                ),
+                                colon_token: token::Colon::default(),
+                                bounds: t.bounds.clone(),
+                        }));
+                    }
+                }
+            });
+
             if is_zero_copy {
                 quote! {
                     #[automatically_derived]
